@@ -5,6 +5,7 @@ sandboxes can work in parallel and /repo itself stays untouched.
 import json, os, subprocess, sys
 tag, items = sys.argv[1], sys.argv[2:]
 T = f"/tmp/b_{tag}"
+os.environ["OHKAMI_REPO"] = T + "/repo"   # harness_loom/build.rs reads the WaitGroup source from there
 def sh(cmd, cwd=None):
     p = subprocess.run(cmd, shell=True, cwd=cwd, stdout=subprocess.PIPE, stderr=subprocess.STDOUT, text=True)
     return p.returncode, p.stdout
